@@ -766,6 +766,14 @@ bool Parser::parseEnumerator(DeclarationSyntax*& decl)
             break;
     }
 
+    // An enumerator without a comma is the last one of its list.
+    if (enumMembDecl->commaTkIdx_ == LexedTokens::invalidIndex()
+            && peek().kind() != SyntaxKind::CloseBraceToken) {
+        diagReporter_.ExpectedTokenWithin({ SyntaxKind::CommaToken,
+                                            SyntaxKind::CloseBraceToken });
+        return false;
+    }
+
     return true;
 }
 
